@@ -18,7 +18,8 @@ from .. import core, geo, inputforms, mapsys, motlutil
 
 SNAP = 1e-9
 
-INVS = ["TypeOK", "C14_RotatePermutesInterior", "C14_SameAsPose", "C14_PlaceStamps", "C14_PlaceListStamps", "C14_WindowExact", "C14_SymInvariant"]
+INVS = ["TypeOK", "C14_RotatePermutesInterior", "C14_SameAsPose", "C14_PlaceStamps", "C14_PlaceListStamps",
+        "C14_WindowStartRule", "C14_PlaceFractional", "C14_WindowExact", "C14_SymInvariant"]
 
 
 def cfg(rot, place, window, sym, mode, invs=INVS, placelist="Empty"):
@@ -245,14 +246,20 @@ def run_place(ctx, case):
     poses = case["poses"]
     n = len(poses)
     feature = ["object_id", "class", "geom1", "object_id"][case["variant"] % 4]
-    cmap = (lambda v: float(v)) if feature != "geom1" else (lambda v: v + 0.5)
+    # identifier values: the colouring field may hold 0 (colour tokens 1.. are shifted down by one), the tomogram numbers
+    # may be 0 or large consecutive numbers
+    cshift = [0, 0, -1][(case["variant"] // 17) % 3] if feature != "geom1" else 0
+    cmap = (lambda v: float(v + cshift)) if feature != "geom1" else (lambda v: v + 0.5)
+    tomo0 = [1, 0, 240115, 999999][(case["variant"] // 19) % 4]
+    u = case.get("u", 1)
+    pclause = "C14_PlaceFractional" if "u" in case else "C14_PlaceStamps"
     cols = motlutil.empty_rows(n)
     for i, p in enumerate(poses):
         sh = [rng.choice([0.0, 0.0, 0.5, -0.25, 1.0, -2.0]) for _ in range(3)]
-        cols["x"][i], cols["y"][i], cols["z"][i] = [p["pos"][j] - sh[j] for j in range(3)]
+        cols["x"][i], cols["y"][i], cols["z"][i] = [p["pos"][j] / u - sh[j] for j in range(3)]
         cols["shift_x"][i], cols["shift_y"][i], cols["shift_z"][i] = sh
         cols["phi"][i], cols["theta"][i], cols["psi"][i] = geo.euler_for_code(p["r"], rng)
-        cols["tomo_id"][i] = 1
+        cols["tomo_id"][i] = tomo0 + (i % 2)
         cols["subtomo_id"][i] = i + 1
         cols["object_id"][i] = 77
         cols["class"][i] = 88
@@ -292,7 +299,9 @@ def run_place(ctx, case):
         return cryomap.place_object(tmpl, motl, volume_shape=list(cdims), feature_to_color=feature)
 
     sig = {"op": "place_object", "poses": "one" if n == 1 else "many", "index": index_kind,
-           "template": ["float64", "int8", "int16", "bool"][tkind] if form != 3 else "path", "stored": tform}
+           "template": ["float64", "int8", "int16", "bool"][tkind] if form != 3 else "path", "stored": tform,
+           "box": "even" if S % 2 == 0 else "odd",
+           "position": "integral" if all(v % u == 0 for p in poses for v in p["pos"]) else "fractional"}
     want = np.full(cdims, background if form == 1 else 0.0)
     for x, colour in case["placed"]:
         want[tuple(x)] = cmap(colour)
@@ -304,15 +313,18 @@ def run_place(ctx, case):
             break
         out = np.asarray(raw, dtype=float)
         if out.shape != cdims:
-            ctx.fail("C14_PlaceStamps", "container of shape %s returned for %s" % (out.shape, cdims), case, sig)
+            ctx.fail(pclause, "container of shape %s returned for %s" % (out.shape, cdims), case, sig)
         elif not np.all(np.isfinite(out)) or np.max(np.abs(out - want)) > 1e-12:
             diff = np.argwhere(~(np.abs(out - want) <= 1e-12))
             d0 = tuple(int(v) for v in diff[0])
-            ctx.fail("C14_PlaceStamps", "%d container voxels differ from the specification; e.g. voxel %s = %r, expected %r%s" % (
+            ctx.fail(pclause, "%d container voxels differ from the specification; e.g. voxel %s = %r, expected %r%s" % (
                 len(diff), d0, float(out[d0]), float(want[d0]), " (second call with the same arguments)" if rep else ""), case, sig)
         g.after(ctx, case, sig, "place_object", raw)
     # the same active convention as Motl.shift_positions: stamped voxel = complete position after shifting by the offset.
     # The whole list (with its row labels) is shifted, in place or into a new list.
+    if "shifted" not in case:
+        ctx.ran(case)
+        return
     for j in rng.sample(range(len(case["tmpl"]["cells"])), min(3, len(case["tmpl"]["cells"]))):
         cell = case["tmpl"]["cells"][j]
         inplace = (case["variant"] + j) % 2 == 0
@@ -440,19 +452,22 @@ def run_window(ctx, case):
     mean = float(np.mean(vol))
     want = expected_window(vol, case["axes"], mean)
     cls = window_class(case)
-    centre, shape = case["centre"], case["shape"]
+    u = case.get("u", 1)
+    centre, shape = [c / u for c in case["centre"]] if u != 1 else case["centre"], case["shape"]
+    fractional = any(c != int(c) for c in centre)
     g = ArgGuard()
     g.track("volume", vol)
     cen = g.track("coordinates", np.array(centre, dtype=np.float64))
     shp = g.track("subvolume_shape", np.array(shape))
-    ceni = g.track("coordinates_int", np.array(centre, dtype=np.int64))
+    # (a fractional centre has no integer spelling; the float array is used instead)
+    ceni = g.track("coordinates_int", np.array(centre, dtype=np.float64 if fractional else np.int64))
     calls = [("extract_subvolume", lambda: cryomap.extract_subvolume(vol, cen, shp)),
              ("extract_subvolume", lambda: cryomap.extract_subvolume(vol, cen, shp)),
              ("extract_subvolume", lambda: cryomap.extract_subvolume(vol, ceni, tuple(shape))),
              ("extract_subvolume", lambda: cryomap.extract_subvolume(vol, [float(v) for v in centre], list(shape))),
              ("extract_subvolume", lambda: cryomap.extract_subvolume(vol, tuple(centre), shp, enforce_shape=False, output_file=None))]
     calls = calls[:2] + [calls[2 + case["variant"] % 3]]
-    if cls == "inside":
+    if cls == "inside" and not fractional and all(v % 2 == 0 for v in shape):
         calls.append(("crop", lambda: cryomap.crop(vol, shp, crop_coord=cen)))
         calls.append(("crop", lambda: cryomap.crop(vol, tuple(shape), crop_coord=list(centre))))
         if list(centre) == [d // 2 for d in case["vdims"]]:
@@ -460,24 +475,26 @@ def run_window(ctx, case):
             if len(set(shape)) == 1:
                 calls.append(("crop", lambda: cryomap.crop(vol, int(shape[0]))))
     covering = all(m.count(-1) + case["vdims"][ax] == len(m) for ax, m in enumerate(case["axes"]))
-    if covering and list(centre) == [d // 2 for d in case["vdims"]] and all(d % 2 == 0 for d in case["vdims"]):
+    if covering and not fractional and list(centre) == [d // 2 for d in case["vdims"]] and all(d % 2 == 0 for d in case["vdims"]) \
+            and all(v % 2 == 0 for v in shape):
         calls.append(("pad", lambda: cryomap.pad(vol, tuple(shape))))
         calls.append(("pad", lambda: cryomap.pad(vol, shp, fill_value=None)))
     calls.append(("extract_subvolume", lambda: cryomap.extract_subvolume(vol, cen, shp)))     # once more after all the edits
     for k_, (name, fn) in enumerate(calls):
         raw, err = core.call_guarded(fn)
-        sig = {"op": name, "window": cls, "volume": vform}
+        sig = {"op": name, "window": cls, "volume": vform, "centre": "fractional" if fractional else "integral",
+               "shape": "even" if all(v % 2 == 0 for v in shape) else "odd"}
         if err is not None:
             g.check(ctx, case, sig, name)
             ctx.fail("call_raises", err, case, sig)
             continue
         out = np.asarray(raw, dtype=float)
         if out.shape != want.shape:
-            ctx.fail("C14_WindowExact", "%s returned shape %s for the requested window %s" % (name, out.shape, shape), case, sig)
+            ctx.fail("C14_WindowStartRule" if "u" in case else "C14_WindowExact", "%s returned shape %s for the requested window %s" % (name, out.shape, shape), case, sig)
         elif not np.all(np.isfinite(out)) or np.max(np.abs(out - want)) > 1e-12 * max(1.0, float(np.max(np.abs(vol)))):
             diff = np.argwhere(~(np.abs(out - want) <= 1e-10))
             d0 = tuple(int(v) for v in diff[0]) if len(diff) else (0, 0, 0)
-            ctx.fail("C14_WindowExact", "%s: %d window voxels differ; e.g. window%s = %r, expected %r (volume mean %r)" % (
+            ctx.fail("C14_WindowStartRule" if "u" in case else "C14_WindowExact", "%s: %d window voxels differ; e.g. window%s = %r, expected %r (volume mean %r)" % (
                 name, len(diff), d0, float(out[d0]), float(want[d0]), mean), case, sig)
         g.after(ctx, case, sig, name, raw, hold=(k_ == 0))
     g.finish(ctx, case, {"op": "extract_subvolume", "window": cls, "volume": vform})
@@ -530,21 +547,22 @@ def spec_expected(ctx, case):
     k = case["kind"]
     sets = {"RRot": "{}", "RPlace": "{}", "RWindow": "{}", "RSym": "{}", "RPlaceList": "{}"}
     tm = lambda t: "[S |-> %d, cells |-> <<%s>>]" % (t["S"], ", ".join("Cell(%s, %s)" % (tt(c["o"]), "TRUE" if c["hi"] else "FALSE") for c in t["cells"]))
+    unit = ", u |-> %d" % case["u"] if "u" in case else ""
     if k == "l2_rotate":
         sets["RRot"] = "{ [dims |-> %s, R |-> FromCode(%s)] }" % (tt(case["dims"]), tt(case["r"]))
     elif k == "l2_place":
         cells = ", ".join("Cell(%s, %s)" % (tt(c["o"]), "TRUE" if c["hi"] else "FALSE") for c in case["tmpl"]["cells"])
         poses = ", ".join("[pos |-> %s, R |-> FromCode(%s), colour |-> %d]" % (tt(p["pos"]), tt(p["r"]), p["colour"])
                           for p in case["poses"])
-        sets["RPlace"] = "{ [cdims |-> %s, tmpl |-> [S |-> %d, cells |-> <<%s>>], poses |-> <<%s>>] }" % (
-            tt(case["cdims"]), case["tmpl"]["S"], cells, poses)
+        sets["RPlace"] = "{ [cdims |-> %s, tmpl |-> [S |-> %d, cells |-> <<%s>>], poses |-> <<%s>>%s] }" % (
+            tt(case["cdims"]), case["tmpl"]["S"], cells, poses, unit)
     elif k == "l2_placelist":
         poses = ", ".join("[pos |-> %s, R |-> FromCode(%s), colour |-> %d]" % (tt(p["pos"]), tt(p["r"]), p["colour"])
                           for p in case["poses"])
         sets["RPlaceList"] = "{ [cdims |-> %s, tmpls |-> <<%s>>, poses |-> <<%s>>] }" % (
             tt(case["cdims"]), ", ".join(tm(t) for t in case["tmpls"]), poses)
     elif k == "l2_window":
-        sets["RWindow"] = "{ [vdims |-> %s, centre |-> %s, shape |-> %s] }" % (tt(case["vdims"]), tt(case["centre"]), tt(case["shape"]))
+        sets["RWindow"] = "{ [vdims |-> %s, centre |-> %s, shape |-> %s%s] }" % (tt(case["vdims"]), tt(case["centre"]), tt(case["shape"]), unit)
     else:
         sets["RSym"] = "{ [dims |-> %s, n |-> %d] }" % (tt(case["dims"]), case["n"])
     path = os.path.join(ctx.sub("replaymod"), "MapGeomReplay.tla")
@@ -555,7 +573,7 @@ def spec_expected(ctx, case):
     if len(res.records) != 1:
         raise core.MachineryError("replay: the specification produced %d transitions for one case" % len(res.records))
     out = res.records[0]["out"]
-    field = {"l2_rotate": ["pairs"], "l2_place": ["placed", "shifted"], "l2_placelist": ["placed"], "l2_window": ["axes"], "l2_sym": ["pairs"]}[k]
+    field = {"l2_rotate": ["pairs"], "l2_place": ["placed", "shifted"] if "shifted" in case else ["placed"], "l2_placelist": ["placed"], "l2_window": ["axes"], "l2_sym": ["pairs"]}[k]
     for f in field:
         if canon(out[f]) != canon(case[f]):
             raise core.MachineryError("replay file disagrees with the specification about %s" % f)
@@ -831,8 +849,9 @@ def run(ctx):
                 "distinct concrete calls")
     ctx.assumptions += [
         "face voxels of a rotated box are not decided (they can leave the interpolation domain by rounding)",
-        "placement: integral complete positions and even template boxes (the property does not fix rounding / odd centring)",
-        "windows: integral centres and even shapes; crop only for windows inside the volume, pad only for even sizes",
+        "windows and placement at fractional centres / positions and with odd boxes follow ONE rule, decided in MapGeom.tla: "
+        "start = floor(centre - S/2) (continuous coordinates, voxel i covers [i, i+1)); crop / pad only for integral centres "
+        "and even sizes",
         "a map is its values, not its storage type: integer-valued maps / templates stored as int8, int16, int32, uint8, bool, "
         "float32 must rotate and stamp like their float64 copy (deviation <= 1e-3 of the value range, identical containers)",
         "array-valued arguments are passed as the caller's objects, reused for later calls and must be unchanged afterwards "
@@ -845,7 +864,7 @@ def run(ctx):
     W = 4
     big = not ctx.quick
     ctx.tlc("MapGeomLaws", cfg("Empty", "Empty", "Empty", "Empty", "none", invs=["TypeOK"]), name="laws", workers=W)
-    scopes = (ctx.pick("MCRotCases", "MCRotCasesBig"), ctx.pick("MCPlaceCases", "MCPlaceCasesBig"), "MCWindowAll", "MCSymCases")
+    scopes = (ctx.pick("MCRotCases", "MCRotCasesBig"), ctx.pick("MCPlaceAll", "MCPlaceAllBig"), "MCWindowAllQ", "MCSymCases")
     # L1: clauses on every state (parallel, nothing printed) ; L2 emission: same scope, one worker
     ctx.tlc("MC_MapGeom", cfg(*scopes, "none", placelist="MCPlaceListCases"), name="l1", workers=W)
     res = ctx.tlc("MC_MapGeom", cfg(*scopes, "tr", invs=["TypeOK"], placelist="MCPlaceListCases"), name="l2", workers=1)
@@ -871,6 +890,17 @@ def run(ctx):
             i += 1
             run_place(ctx, {"kind": "l2_place", "cdims": t["inp"]["cdims"], "tmpl": t["inp"]["tmpl"], "poses": t["inp"]["poses"],
                             "placed": t["out"]["placed"], "shifted": t["out"]["shifted"], "variant": var(i), "disturb": (var(i) * 31 + 7) if var(i) % 3 == 0 else None})
+    for t in kinds.get("placeq", []):
+        for rep in range(ctx.pick(1, 3)):
+            i += 1
+            run_place(ctx, {"kind": "l2_place", "cdims": t["inp"]["cdims"], "tmpl": t["inp"]["tmpl"], "poses": t["inp"]["poses"],
+                            "u": t["inp"]["u"], "placed": t["out"]["placed"], "variant": var(i), "disturb": (var(i) * 31 + 7) if var(i) % 3 == 0 else None})
+    for t in kinds.get("windowq", []):
+        i += 1
+        run_window(ctx, {"kind": "l2_window", "vdims": t["inp"]["vdims"], "centre": t["inp"]["centre"], "shape": t["inp"]["shape"],
+                         "u": t["inp"]["u"], "axes": t["out"]["axes"], "variant": var(i), "disturb": (var(i) * 31 + 7) if var(i) % 3 == 0 else None})
+    if len(kinds.get("placeq", [])) < 50 or len(kinds.get("windowq", [])) < 300:
+        raise core.MachineryError("MC_MapGeom emitted %d / %d fractional placements / windows" % (len(kinds.get("placeq", [])), len(kinds.get("windowq", []))))
     ctx.exhaustive["L2_place"] = True
     for t in kinds.get("placelist", []):
         for rep in range(ctx.pick(1, 3)):
